@@ -17,9 +17,12 @@ import (
 
 	"github.com/IrineSistiana/mosdns/v5/pkg/query_context"
 	"github.com/IrineSistiana/mosdns/v5/plugin/executable/cache"
+	"github.com/IrineSistiana/mosdns/v5/plugin/executable/dual_selector"
 	"github.com/IrineSistiana/mosdns/v5/plugin/executable/redirect"
 	"github.com/IrineSistiana/mosdns/v5/plugin/executable/sequence"
 	"github.com/miekg/dns"
+
+	"go.uber.org/zap"
 
 	"verifharness/hx"
 )
@@ -238,7 +241,15 @@ func payloadOf(r *dns.Msg) int {
 // of the cache sets DO on the upstream-bound OPT (qCtx.QOpt()). Returns the
 // message as the cache saw it, whether the rest of the chain was entered with
 // a (cached) response, and which step created that response.
-func execOne(id string, c *cache.Cache, d qd, plugDo bool, idx, kind int, replace bool) (seen qd, hit bool, from int) {
+// servedQ is the question section of a served (cached) reply relative to the
+// query: same name, and its type and class (false, 0, 0 when it has not exactly
+// one question).
+type servedQ struct {
+	nameOK bool
+	t, c   uint16
+}
+
+func execOne(id string, c *cache.Cache, d qd, plugDo bool, idx, kind int, replace bool) (seen qd, hit bool, from int, sq servedQ) {
 	qCtx := query_context.NewContext(d.msg())
 	if plugDo {
 		qCtx.QOpt().SetDo()
@@ -250,6 +261,9 @@ func execOne(id string, c *cache.Cache, d qd, plugDo bool, idx, kind int, replac
 		if r := qc.R(); r != nil {
 			hit = true
 			from = payloadOf(r)
+			if q := qc.Q(); len(r.Question) == 1 && len(q.Question) > 0 {
+				sq = servedQ{r.Question[0].Name == q.Question[0].Name, r.Question[0].Qtype, r.Question[0].Qclass}
+			}
 			if !replace {
 				return nil
 			}
@@ -287,8 +301,8 @@ func runPair(w *hx.Writer, id string, r *hx.RNG, a, b pq) {
 	order := func(x, y pq) bool {
 		c := newCache(r)
 		defer c.Close()
-		sx, _, _ := execOne(id, c, x.d, x.do, 0, 1, false)
-		sy, hit, _ := execOne(id, c, y.d, y.do, 1, 1, false)
+		sx, _, _, _ := execOne(id, c, x.d, x.do, 0, 1, false)
+		sy, hit, _, _ := execOne(id, c, y.d, y.do, 1, 1, false)
 		seenA, seenB = sx, sy
 		return hit
 	}
@@ -326,12 +340,12 @@ func runHist(w *hx.Writer, id string, r *hx.RNG, ops []hop) {
 			obs = append(obs, "None")
 			continue
 		}
-		seen, hit, from := execOne(id, c, o.q.d, o.q.do, i, o.kind, o.replace)
+		seen, hit, from, sq := execOne(id, c, o.q.d, o.q.do, i, o.kind, o.replace)
 		cops = append(cops, hx.App("HQ", seen.coq(), hx.Ni(o.kind), hx.Bool(o.replace)))
 		if hit {
 			hits++
 		}
-		obs = append(obs, hx.Opt(hit, hx.Ni(from)))
+		obs = append(obs, hx.Opt(hit, hx.Tuple(hx.Ni(from), hx.Bool(sq.nameOK), hx.N(uint64(sq.t)), hx.N(uint64(sq.c)))))
 	}
 	w.Emit("hist", hx.Case{
 		ID:   id,
@@ -402,6 +416,38 @@ func runSweep(w *hx.Writer, id string, dim int, base qd, total, start, step, cnt
 }
 
 // ---------- redirect in front of a (lazy) cache ----------
+
+// A multi-step case whose background work can not be joined is given up (the
+// observations would depend on timing); the driver then exits with a non-zero
+// status after writing all other cases. Never happens on a correct tree.
+var (
+	aborted    int
+	joinBroken bool
+)
+
+func abortCase(w *hx.Writer, id, why string) {
+	fmt.Fprintf(os.Stderr, "c04 %s: case given up: %s\n", id, why)
+	w.Tally("aborted", 1)
+	aborted++
+}
+
+// joinLazy waits until no lazy update is in flight for any of the keys.
+func joinLazy(c *cache.Cache, keys []string) bool {
+	done := make(chan struct{})
+	go func() {
+		for _, k := range keys {
+			c.VerifC10LazyWait(k)
+		}
+		close(done)
+	}()
+	select {
+	case <-done:
+		return true
+	case <-time.After(20 * time.Second):
+		joinBroken = true
+		return false
+	}
+}
 
 type lop struct {
 	age bool
@@ -500,12 +546,14 @@ func runLazy(w *hx.Writer, id string, lazy bool, m int, rules [][2]int, ops []lo
 		if err := walker.ExecNext(context.Background(), qCtx); err != nil {
 			fail(id, "chain: %v", err)
 		}
-		for _, k := range keys {
-			c.VerifC10LazyWait(k)
+		if !joinLazy(c, keys) {
+			abortCase(w, id, "a lazy update can not be joined")
+			return
 		}
 		r := qCtx.R()
-		if r == nil || len(r.Question) != 1 {
-			fail(id, "no usable response")
+		if r == nil || len(r.Question) != 1 || len(r.Answer) == 0 {
+			abortCase(w, id, "no usable response")
+			return
 		}
 		ip := 99
 		if a, ok := r.Answer[len(r.Answer)-1].(*dns.A); ok && a.A.To4() != nil {
@@ -606,6 +654,311 @@ func genLazy(r *hx.RNG) lazyCase {
 	}
 	lc.ops = append(lc.ops, ask(0))
 	return lc
+}
+
+// ---------- a response already in the context / dual_selector in front of the cache ----------
+
+type q3 struct {
+	n    int
+	t, c uint16
+}
+
+func (q q3) coq() string { return hx.Tuple(hx.Ni(q.n), hx.N(uint64(q.t)), hx.N(uint64(q.c))) }
+
+type pop struct {
+	age bool
+	q   q3
+	pre *q3
+}
+
+func key3(q q3) string {
+	m := new(dns.Msg)
+	m.SetQuestion(lname(q.n), q.t)
+	m.Question[0].Qclass = q.c
+	return cache.VerifGetMsgKey(query_context.NewContext(m).Q())
+}
+
+// reply3 is a response to the question q; with data it has one record of q's
+// name and type, without it an empty answer and an SOA in the authority section.
+func reply3(id uint16, q q3, data bool) *dns.Msg {
+	r := new(dns.Msg)
+	r.Id = id
+	r.Response = true
+	r.RecursionAvailable = true
+	r.Question = []dns.Question{{Name: lname(q.n), Qtype: q.t, Qclass: q.c}}
+	hdr := dns.RR_Header{Name: lname(q.n), Rrtype: q.t, Class: q.c, Ttl: 300}
+	if !data {
+		r.Ns = []dns.RR{&dns.SOA{Hdr: dns.RR_Header{Name: lname(q.n), Rrtype: dns.TypeSOA, Class: q.c, Ttl: 300},
+			Ns: "ns.", Mbox: "mbox.", Serial: 1, Refresh: 300, Retry: 300, Expire: 300, Minttl: 300}}
+		return r
+	}
+	switch q.t {
+	case dns.TypeA:
+		r.Answer = []dns.RR{&dns.A{Hdr: hdr, A: net.IPv4(10, 0, 0, byte(q.n)).To4()}}
+	case dns.TypeAAAA:
+		r.Answer = []dns.RR{&dns.AAAA{Hdr: hdr, AAAA: net.ParseIP(fmt.Sprintf("2001:db8::%d", q.n+1))}}
+	default:
+		r.Answer = []dns.RR{&dns.TXT{Hdr: hdr, Txt: []string{"t"}}}
+	}
+	return r
+}
+
+func msgQ3(m *dns.Msg) q3 {
+	if len(m.Question) != 1 {
+		return q3{n: 99}
+	}
+	return q3{lid(m.Question[0].Name), m.Question[0].Qtype, m.Question[0].Qclass}
+}
+
+func msgRecs(m *dns.Msg) string {
+	var it []string
+	for _, rr := range m.Answer {
+		it = append(it, hx.Tuple(hx.Ni(lid(rr.Header().Name)), hx.N(uint64(rr.Header().Rrtype))))
+	}
+	return hx.List(it)
+}
+
+var chainTypes = []uint16{dns.TypeA, dns.TypeAAAA, dns.TypeTXT}
+var chainClasses = []uint16{dns.ClassINET, dns.ClassCHAOS}
+
+// runChain drives [front; prefer_ipv4/6 (sel = 1/28, 0: none); cache; upstream].
+// front puts the step's pre-set response into the context; the upstream answers
+// only when there is no response and has no data of the selector's preferred
+// type, so the selector never blocks and returns only after both of its
+// sub-queries have finished. After every query all lazy updates are joined and
+// the number of completed executions of the cache is checked.
+func runChain(w *hx.Writer, id string, lazy bool, sel int, m int, ops []pop) {
+	lazyTTL := 0
+	if lazy {
+		lazyTTL = 86400
+	}
+	c := cache.NewCache(&cache.Args{Size: 1024, LazyCacheTTL: lazyTTL}, cache.Opts{})
+	defer c.Close()
+	var pre *q3
+	front := sequence.ExecutableFunc(func(_ context.Context, qc *query_context.Context) error {
+		if pre != nil {
+			qc.SetResponse(reply3(qc.Q().Id, *pre, true))
+		}
+		return nil
+	})
+	doneCh := make(chan struct{}, 64)
+	counted := sequence.RecursiveExecutableFunc(func(ctx context.Context, qc *query_context.Context, next sequence.ChainWalker) error {
+		err := c.Exec(ctx, qc, next)
+		doneCh <- struct{}{}
+		return err
+	})
+	upstream := sequence.ExecutableFunc(func(_ context.Context, qc *query_context.Context) error {
+		if qc.R() != nil {
+			return nil
+		}
+		q := msgQ3(qc.Q())
+		qc.SetResponse(reply3(qc.Q().Id, q, int(q.t) != sel))
+		return nil
+	})
+	chain := []*sequence.ChainNode{{E: front}}
+	if sel != 0 {
+		var s *dual_selector.Selector
+		if sel == 1 {
+			s = dual_selector.NewPreferIpv4(sequence.NewBQ(nil, zap.NewNop()))
+		} else {
+			s = dual_selector.NewPreferIpv6(sequence.NewBQ(nil, zap.NewNop()))
+		}
+		defer s.Close()
+		chain = append(chain, &sequence.ChainNode{RE: s})
+	}
+	chain = append(chain, &sequence.ChainNode{RE: counted}, &sequence.ChainNode{E: upstream})
+
+	var universe []q3
+	for n := 0; n < m; n++ {
+		for _, t := range chainTypes {
+			for _, cl := range chainClasses {
+				universe = append(universe, q3{n, t, cl})
+			}
+		}
+	}
+	keys := make([]string, len(universe))
+	for i, q := range universe {
+		keys[i] = key3(q)
+	}
+	var cops, obs []string
+	for _, o := range ops {
+		if o.age {
+			cops = append(cops, hx.App("PAge", o.q.coq()))
+			obs = append(obs, hx.App("POAge", hx.Bool(c.VerifC10Backdate(key3(o.q), 400*time.Second))))
+			continue
+		}
+		q := new(dns.Msg)
+		q.SetQuestion(lname(o.q.n), o.q.t)
+		q.Question[0].Qclass = o.q.c
+		qCtx := query_context.NewContext(q)
+		pre = o.pre
+		ctx, cancel := context.WithTimeout(context.Background(), 20*time.Second)
+		walker := sequence.NewChainWalker(chain, nil)
+		err := walker.ExecNext(ctx, qCtx)
+		cancel()
+		if err != nil {
+			fail(id, "chain: %v", err)
+		}
+		// every execution of the cache this query caused has finished
+		want := 1
+		if sel != 0 && (o.q.t == dns.TypeA || o.q.t == dns.TypeAAAA) && int(o.q.t) != sel {
+			want = 2
+		}
+		for i := 0; i < want; i++ {
+			select {
+			case <-doneCh:
+			case <-time.After(20 * time.Second):
+				joinBroken = true
+				abortCase(w, id, fmt.Sprintf("execution %d of %d of the cache did not finish", i+1, want))
+				return
+			}
+		}
+		select {
+		case <-doneCh:
+			abortCase(w, id, fmt.Sprintf("the cache was executed more than %d times", want))
+			return
+		default:
+		}
+		if !joinLazy(c, keys) {
+			abortCase(w, id, "a lazy update can not be joined")
+			return
+		}
+		r := qCtx.R()
+		if r == nil {
+			abortCase(w, id, "no response")
+			return
+		}
+		pc := "None"
+		if o.pre != nil {
+			pc = hx.Some(o.pre.coq())
+		}
+		cops = append(cops, hx.App("PAsk", o.q.coq(), pc))
+		obs = append(obs, hx.App("POAsk", msgQ3(r).coq(), msgRecs(r)))
+	}
+	var held []string
+	wrong := 0
+	for i, k := range keys {
+		it := c.VerifC10Item(k)
+		if it == nil {
+			continue
+		}
+		if msgQ3(it) != universe[i] {
+			wrong++
+		}
+		held = append(held, hx.Tuple(universe[i].coq(), msgQ3(it).coq(), msgRecs(it)))
+	}
+	w.Emit("chain", hx.Case{
+		ID:   id,
+		Coq:  hx.App("CChain", hx.Bool(lazy), hx.Ni(sel), hx.Ni(m), hx.List(cops), hx.List(obs), hx.List(held)),
+		Desc: map[string]any{"kind": "chain", "lazy": lazy, "sel": sel, "steps": len(ops), "held_under_other_key": wrong},
+		FKey: "chain",
+	})
+}
+
+type chainCase struct {
+	lazy bool
+	sel  int
+	m    int
+	ops  []pop
+}
+
+func pask(n int, t, c uint16) pop { return pop{q: q3{n, t, c}} }
+func ppre(n int, t, c uint16, pn int, pt, pc uint16) pop {
+	return pop{q: q3{n, t, c}, pre: &q3{pn, pt, pc}}
+}
+func page(n int, t, c uint16) pop { return pop{age: true, q: q3{n, t, c}} }
+
+func chainCatalogue() []chainCase {
+	const A, AAAA, TXT, IN, CH = dns.TypeA, dns.TypeAAAA, dns.TypeTXT, dns.ClassINET, dns.ClassCHAOS
+	var out []chainCase
+	for _, lazy := range []bool{false, true} {
+		// a plugin in front has set a response (no selector)
+		for _, p := range [][3]uint16{{0, AAAA, IN}, {0, TXT, IN}, {0, A, CH}, {1, A, IN}, {0, A, IN}} {
+			pn, pt, pc := int(p[0]), p[1], p[2]
+			out = append(out,
+				// response to another question present on a miss, then the plain queries
+				chainCase{lazy, 0, 2, []pop{ppre(0, A, IN, pn, pt, pc), pask(0, A, IN), pask(pn, pt, pc)}},
+				// present on a fresh hit
+				chainCase{lazy, 0, 2, []pop{pask(0, A, IN), ppre(0, A, IN, pn, pt, pc), pask(0, A, IN), pask(pn, pt, pc)}},
+				// present on a stale hit (lazy: the background update works on it)
+				chainCase{lazy, 0, 2, []pop{pask(0, A, IN), page(0, A, IN), ppre(0, A, IN, pn, pt, pc), pask(0, A, IN), pask(pn, pt, pc)}},
+				chainCase{lazy, 0, 2, []pop{pask(0, A, IN), page(0, A, IN), ppre(0, A, IN, pn, pt, pc), ppre(0, A, IN, pn, pt, pc), page(0, A, IN), pask(0, A, IN)}},
+			)
+		}
+		// prefer_ipv4: names have AAAA data only; prefer_ipv6: A data only
+		for _, sel := range []int{1, 28} {
+			P, O := uint16(A), uint16(AAAA)
+			if sel == 28 {
+				P, O = AAAA, A
+			}
+			out = append(out,
+				// the demo: the other type answered in front (hosts), then the preferred type
+				chainCase{lazy, sel, 2, []pop{ppre(0, O, IN, 0, O, IN), pask(0, P, IN), pask(0, O, IN)}},
+				// control: nothing in front
+				chainCase{lazy, sel, 2, []pop{pask(0, O, IN), pask(0, P, IN), pask(0, O, IN)}},
+				// preferred first, entry goes stale, then the other type answered in front
+				chainCase{lazy, sel, 2, []pop{pask(0, P, IN), page(0, P, IN), ppre(0, O, IN, 0, O, IN), pask(0, P, IN), pask(0, O, IN)}},
+				chainCase{lazy, sel, 2, []pop{pask(0, P, IN), pask(0, O, IN), page(0, P, IN), page(0, O, IN), ppre(0, O, IN, 0, O, IN), pask(0, P, IN), pask(0, O, IN)}},
+				// other class, other name, unrelated type
+				chainCase{lazy, sel, 2, []pop{ppre(0, O, CH, 0, O, CH), pask(0, P, CH), pask(0, P, IN), pask(0, O, IN)}},
+				chainCase{lazy, sel, 2, []pop{ppre(1, O, IN, 1, O, IN), ppre(0, O, IN, 1, O, IN), pask(0, P, IN), pask(1, P, IN), pask(0, O, IN)}},
+				chainCase{lazy, sel, 2, []pop{ppre(0, TXT, IN, 0, O, IN), pask(0, TXT, IN), pask(0, P, IN), pask(0, O, IN)}},
+			)
+		}
+	}
+	return out
+}
+
+func genChain(r *hx.RNG) chainCase {
+	cc := chainCase{lazy: r.Bool(), sel: hx.Pick(r, []int{0, 1, 28, 1, 28}), m: r.Range(1, 2)}
+	types := []uint16{dns.TypeA, dns.TypeAAAA, dns.TypeA, dns.TypeAAAA, dns.TypeTXT}
+	genQ3 := func() q3 {
+		c := uint16(dns.ClassINET)
+		if r.Chance(1, 6) {
+			c = dns.ClassCHAOS
+		}
+		return q3{r.Intn(cc.m), hx.Pick(r, types), c}
+	}
+	// a pre-set response never carries the selector's preferred type (the selector would start blocking)
+	fixPre := func(p q3) q3 {
+		if int(p.t) == cc.sel {
+			p.t = dns.TypeA + dns.TypeAAAA - p.t
+		}
+		return p
+	}
+	n := r.Range(3, 8)
+	for i := 0; i < n; i++ {
+		q := genQ3()
+		switch r.Intn(6) {
+		case 0:
+			cc.ops = append(cc.ops, pop{age: true, q: q})
+		case 1, 2:
+			var p q3
+			switch r.Intn(5) {
+			case 0:
+				p = q // its own question
+			case 1:
+				p = q3{q.n, dns.TypeA + dns.TypeAAAA - q.t, q.c}
+				if q.t == dns.TypeTXT {
+					p.t = dns.TypeA
+				}
+			case 2:
+				p = q3{q.n, q.t, 4 - q.c}
+			case 3:
+				p = q3{(q.n + 1) % 2, q.t, q.c}
+			default:
+				p = genQ3()
+			}
+			p = fixPre(p)
+			cc.ops = append(cc.ops, pop{q: q, pre: &p})
+		default:
+			cc.ops = append(cc.ops, pop{q: q})
+		}
+	}
+	// probes
+	q := genQ3()
+	cc.ops = append(cc.ops, pop{q: q3{q.n, dns.TypeA, q.c}}, pop{q: q3{q.n, dns.TypeAAAA, q.c}})
+	return cc
 }
 
 // ---------- generators ----------
@@ -957,7 +1310,13 @@ func catalogue() (keys []keyCase, pairs [][2]pq) {
 func main() {
 	o := hx.ParseFlags()
 	w := hx.NewWriter(o)
-	defer w.Close()
+	defer func() {
+		w.Close()
+		if aborted > 0 {
+			fmt.Fprintf(os.Stderr, "c04: %d case(s) given up\n", aborted)
+			os.Exit(4)
+		}
+	}()
 	keys, pairs := catalogue()
 	for i, k := range keys {
 		id := fmt.Sprintf("cat:keys:%d", i)
@@ -983,7 +1342,7 @@ func main() {
 	// redirect + (lazy) cache
 	for i, lc := range lazyCatalogue() {
 		id := fmt.Sprintf("cat:lazy:%d", i)
-		if o.Want(id) {
+		if o.Want(id) && !joinBroken {
 			runLazy(w, id, lc.lazy, lc.m, lc.rules, lc.ops)
 		}
 	}
@@ -993,11 +1352,31 @@ func main() {
 	}
 	for i := 0; i < nl; i++ {
 		id := fmt.Sprintf("lazy:%d", i)
-		if !o.Want(id) {
+		if !o.Want(id) || joinBroken {
 			continue
 		}
 		lc := genLazy(hx.NewRNG(o.Seed, id))
 		runLazy(w, id, lc.lazy, lc.m, lc.rules, lc.ops)
+	}
+
+	// a response already in the context / dual_selector in front of the cache
+	for i, cc := range chainCatalogue() {
+		id := fmt.Sprintf("cat:chain:%d", i)
+		if o.Want(id) && !joinBroken {
+			runChain(w, id, cc.lazy, cc.sel, cc.m, cc.ops)
+		}
+	}
+	nc := o.Count(100, 5000)
+	if o.N > 0 {
+		nc = o.N / 8
+	}
+	for i := 0; i < nc; i++ {
+		id := fmt.Sprintf("chain:%d", i)
+		if !o.Want(id) || joinBroken {
+			continue
+		}
+		cc := genChain(hx.NewRNG(o.Seed, id))
+		runChain(w, id, cc.lazy, cc.sel, cc.m, cc.ops)
 	}
 
 	// sweeps on the implementation
